@@ -19,6 +19,10 @@ def check(ix, rep):
     P.check_string_index(ix, rep)
     npz = P.check_precedence(ix, rep, grammars)
     rep.floor('binary alternatives with precedence facts', npz, 22)
+    # ... and the grouping by precedence is what the user gets: the listener does not turn the parser's resolution of a choice into an error
+    # (redundant parentheses must not be what makes a formula acceptable)
+    nl = P.check_listener(ix, rep, grammars)
+    rep.floor('sites that install the error listener', nl, 2)
     nl = P.check_ltl_front_end(ix, rep, grammars)
     rep.floor('LTL/STL front-end obligations', nl, 100)
     nb = P.check_builder_exhaustive(ix, rep, grammars)
